@@ -79,6 +79,11 @@ type info struct {
 	Names   map[string]int `json:"names"`
 }
 
+type repeat struct {
+	In  string `json:"in"`
+	Why string `json:"why"`
+}
+
 type lookup struct {
 	In   string `json:"in"`
 	Name string `json:"name"` // Info.Name of the result, "" on error
@@ -105,6 +110,7 @@ func main() {
 		Lookups []lookup `json:"lookups"`
 		Uses    int      `json:"uses"`    // compilations performed before the dump (-history)
 		Changed []string `json:"changed"` // tables that differ from what they were when the process started
+		Repeats []repeat `json:"repeats"` // spellings that resolved differently when they were looked up again
 	}{GOARCH: runtime.GOARCH}
 	fresh := map[string]info{}
 	for _, v := range vars {
@@ -129,7 +135,15 @@ func main() {
 		fmt.Fprintln(os.Stderr, err)
 		os.Exit(3)
 	}
+	// every spelling is looked up twice in a row and once more after all the others: what a spelling resolves to does not depend on
+	// whether it was asked before (Hist!Memoryless for getinfo)
+	all := append([]string{}, ins...)
 	for _, in := range ins {
+		all = append(all, in, in)
+	}
+	all = append(all, ins...)
+	first := map[string]lookup{}
+	for _, in := range all {
 		l := lookup{In: in}
 		func() {
 			defer func() {
@@ -147,7 +161,12 @@ func main() {
 			}
 			l.Name, l.Var = i.Name, byPtr[i]
 		}()
-		out.Lookups = append(out.Lookups, l)
+		if f, seen := first[in]; !seen {
+			first[in] = l
+			out.Lookups = append(out.Lookups, l)
+		} else if f != l {
+			out.Repeats = append(out.Repeats, repeat{In: in, Why: fmt.Sprintf("GetInfo(%q) first gave (%q, %q), a later call in the same process (%q, %q)", in, f.Var, f.Err, l.Var, l.Err)})
+		}
 	}
 	for _, v := range vars {
 		f := fresh[v.v]
